@@ -1372,6 +1372,25 @@ def _content_violations(case: dict, data: bytes, tmpdir: str | None) -> list:
     return out
 
 
+_FACTOR_ERR: dict = {}
+
+
+def scipp_factor_error(unit_in, unit_out, exact: Fraction) -> Fraction:
+    """relative error of the factor scipp itself uses for this pair of units (the oracle assumes it is the
+    correctly rounded ratio; where scipp's factor is less accurate — J -> eV is off by 3.8e-14 — the tolerance
+    is widened by exactly that much, not more)"""
+    key = (unit_in, unit_out)
+    if key not in _FACTOR_ERR:
+        import scipp as sc
+
+        if unit_in is None or unit_out is None or unit_in == unit_out or exact == 0:
+            _FACTOR_ERR[key] = Fraction(0)
+        else:
+            f = Fraction(float(sc.to_unit(sc.scalar(1.0, unit=unit_in), unit_out).value))
+            _FACTOR_ERR[key] = abs(f - exact) / exact
+    return _FACTOR_ERR[key]
+
+
 def _pixel_violations(op: dict, blocks: dict, full: str) -> list:
     out = []
     n = op['npix']
@@ -1403,8 +1422,10 @@ def _pixel_violations(op: dict, blocks: dict, full: str) -> list:
         else:
             approx = (src.astype(np.float64) * float(ratio)).astype(np.float32).view(np.uint32)
             bad = np.nonzero(approx != col)[0]
+        ferr = scipp_factor_error(sp['unit_in'], sp['target'], ratio)
+        ftol = Fraction(1, 2**50) + 2 * ferr
         for k in bad[:50]:
-            verdict = f32_close_enough(int(col[k]), Fraction(float(src[k])) * ratio)
+            verdict = f32_close_enough(int(col[k]), Fraction(float(src[k])) * ratio, ftol)
             if verdict == 'bad':
                 out.append((key_for(sp, 'C13:pixel-value'),
                             f'pixel {int(k)} row {i} ({name}, {sp["dtype"]}): stored {bits_f32(int(col[k]))!r} {sp["target"]}, '
@@ -1435,7 +1456,8 @@ def _pixel_violations(op: dict, blocks: dict, full: str) -> list:
             name, ratio = sp['name'], sp['ratio']
             lo, hi = float(rows[name].min()), float(rows[name].max())
             # a float32 row is converted in single precision: its range carries that precision
-            tol = Fraction(1, 2**22) if sp['dtype'] == 'float32' else Fraction(1, 2**50)
+            tol = (Fraction(1, 2**22) if sp['dtype'] == 'float32' else Fraction(1, 2**50)) \
+                + 2 * scipp_factor_error(sp['unit_in'], sp['target'], ratio)
             for got, src, what in ((vals[2 * i], lo, 'minimum'), (vals[2 * i + 1], hi, 'maximum')):
                 ok = (got == src) if ratio == 1 else f64_close(got, Fraction(src) * ratio, tol)
                 if not ok:
